@@ -33,6 +33,7 @@ int eng_fork_run(void (*fn)(void *), void *ud, const char *stderr_path, int time
        only catches a child that sleeps */
     signal(SIGALRM, SIG_DFL);
     signal(SIGVTALRM, SIG_DFL);
+    { const char *sf = getenv("M4SIM_SLOW_FACTOR"); if (sf && atoi(sf) > 1) timeout_s *= atoi(sf); } /* under valgrind etc. */
     struct itimerval itv = { { 0, 0 }, { timeout_s, 0 } };
     setitimer(ITIMER_VIRTUAL, &itv, NULL);
     alarm((unsigned)timeout_s * 10u);
